@@ -81,6 +81,10 @@ class Repo:
             self.modules[name] = m
         for m in self.modules.values():
             self._index(m)
+        # bases written as bare names of classes of the same module -> qualified
+        for m in self.modules.values():
+            for c in m.classes.values():
+                c.bases = [m.classes[b].qual if b in m.classes else b for b in c.bases]
         self.n_calls = 0
         self.n_resolved = 0
 
